@@ -63,12 +63,19 @@ def check(run):
     for c in mres["tagged"].get("CASE", []):
         d = json.loads(c)
         meaning[d["key"]] = d["meaning"]
-    calls = [{"key": k, "locale": l, "kind": meaning[k]["name"], "args": meaning[k]["args"]} for k in sorted(CATALOGUE) for l in FMT_LOCALES]
+    all_locales = ["en", "en-US", "en-GB", "fr", "fr-CA", "de", "ar", "he", "zh-Hant-TW", "sr-Latn", "sr-Cyrl", "ca-ES-valencia"]
+    locales = FMT_LOCALES if quick else all_locales
+    calls = [{"key": k, "locale": l, "kind": meaning[k]["name"], "args": meaning[k]["args"]} for k in sorted(CATALOGUE) for l in locales]
     orders = [("forward", calls, 1), ("reversed", list(reversed(calls)), 1)]
     sh = list(calls)
-    rng.shuffle(sh)
-    orders.append(("shuffled", sh, 1))
+    for n in range(1 if quick else 6):
+        sh = list(calls)
+        rng.shuffle(sh)
+        orders.append(("shuffled" if n == 0 else "shuffled%d" % (n + 1), sh, 1))
     orders.append(("threads8", sh, 8))
+    if not quick:
+        orders.append(("threads16", list(reversed(sh)), 16))
+        orders.append(("threads3", calls, 3))
     for name, cs, threads in orders:
         rows = [{"case": 1, "mode": "fmt", "calls": cs, "threads": threads}]
         runtimefam.replay_rows(run, rows, [{"catalogue": cat_syms}], "Trace_Formatter", "Trace_Formatter.cfg", "_l2_" + name,
